@@ -89,6 +89,10 @@ def check_roundtrip(ctx, IWAFile, case, data, S, label):
         return
     if s2 != S:
         i = first_diff(s2, S)
+        if "unknown_field_between_known" in (case.get("flags") or ()) and only_reordered(s2, S):
+            ctx.fail(("C05", "unknown_field_moved"), case, f"{label}: a field the schema does not know, stored between known fields, is written after them when re-encoded "
+                                                           f"(same fields, other byte order; first difference at byte {i})")
+            return
         ctx.fail(("C05", "stream_differs", case.get("variant", "original")), case,
                  f"{label}: re-encoded stream differs from the input stream at byte {i} (lengths {len(s2)} vs {len(S)})")
 
@@ -271,6 +275,53 @@ def unknown_field(kind, n, blob):
     return iwa.write_varint((15003 << 3) | 1) + (n % (1 << 64)).to_bytes(8, "little")
 
 
+def unknown_in_order(mtype, body, n):
+    """body with one varint field, whose number the bundled schema of `mtype` does not have, inserted before the first
+    field of a higher number (None if the schema has no gap below the highest field present)."""
+    from numbers_parser.generated.mapping import ID_NAME_MAP
+
+    cls = ID_NAME_MAP.get(mtype)
+    if cls is None or not hasattr(cls, "DESCRIPTOR"):
+        return None
+    known = set(cls.DESCRIPTOR.fields_by_number)
+    try:
+        fields = iwa.wire_fields(body)
+    except Exception:
+        return None
+    present = [f[0] for f in fields]
+    if not present or present != sorted(present):
+        return None
+    ranges = [tuple(r) if isinstance(r, (tuple, list)) else (r.start, r.end) for r in getattr(cls.DESCRIPTOR, "extension_ranges", [])]
+    free = [k for k in range(1, max(present)) if k not in known and k not in present and not any(lo <= k < hi for lo, hi in ranges)]
+    if not free:
+        return None
+    k = free[n % len(free)]
+    out, done = b"", False
+    for fno, _wt, _val, raw in fields:
+        if not done and fno > k:
+            out += iwa.write_varint((k << 3) | 0) + iwa.write_varint(n)
+            done = True
+        out += raw
+    return out if done else None
+
+
+def only_reordered(s2, S):
+    """True when the two streams have the same segments and every message holds the same fields, in another order."""
+    try:
+        a, b = iwa.parse_segments(s2), iwa.parse_segments(S)
+    except Exception:
+        return False
+    if len(a) != len(b):
+        return False
+    for x, y in zip(a, b):
+        if x["identifier"] != y["identifier"] or x["infos"] != y["infos"] or len(x["messages"]) != len(y["messages"]):
+            return False
+        for m1, m2 in zip(x["messages"], y["messages"]):
+            if m1 != m2 and sorted(f[3] for f in iwa.wire_fields(m1)) != sorted(f[3] for f in iwa.wire_fields(m2)):
+                return False
+    return True
+
+
 @st.composite
 def synthetic(draw, pool):
     nseg = draw(st.integers(0, 40))
@@ -278,14 +329,22 @@ def synthetic(draw, pool):
     segs = []
     flags = set()
     ident = 10_000
+    allow_mid = draw(st.integers(0, 5)) == 0   # one archive in six has unknown fields between known ones (a known finding)
     for _ in range(nseg):
         nm = 1 if draw(st.integers(0, 5)) else draw(st.integers(2, 3))
         msgs = []
         for _ in range(nm):
             mtype, body = pool[draw(st.integers(0, len(pool) - 1))]
-            if draw(st.integers(0, 2)) == 0:
+            roll = draw(st.integers(0, 8))
+            if roll in (0, 1, 2):
                 body = body + unknown_field(draw(st.integers(0, 3)), draw(st.integers(0, 2**40)), draw(st.binary(max_size=40)))
                 flags.add("unknown_fields")
+            elif roll == 3 and allow_mid:
+                # an unknown field where a writer with a newer schema puts it: in ascending field-number order, between known fields
+                mid = unknown_in_order(mtype, body, draw(st.integers(0, 2**20)))
+                if mid is not None:
+                    body = mid
+                    flags.add("unknown_field_between_known")
             msgs.append((mtype, body))
         if nm > 1:
             flags.add("multi_message")
@@ -374,7 +433,8 @@ def run_task(ctx, lane, **kw):
         def body(c):
             spec, cs = c
             S = assemble(spec, pool)
-            case = {"lane": "synthetic", "segs": [[i, [[t_, b.hex()] for t_, b in m]] for i, m in spec["segs"]], "target": spec["target"]}
+            case = {"lane": "synthetic", "segs": [[i, [[t_, b.hex()] for t_, b in m]] for i, m in spec["segs"]], "target": spec["target"],
+                    "flags": spec["flags"]}
             data = iwa.build_file(S)
             check_roundtrip(ctx, IWAFile, case, data, S, "synthetic")
             rechunk_variants(ctx, IWAFile, case, S, "synthetic", cs)
